@@ -12,6 +12,7 @@ import (
 	"sort"
 
 	"github.com/slackhq/nebula/header"
+	"github.com/slackhq/nebula/overlay"
 )
 
 // VerifMsgName names a handshake message by its noise bytes (the datagram without the nebula header).
@@ -150,4 +151,15 @@ func (c *Control) VerifProject() VerifState {
 	sort.Slice(s.Pending, func(i, j int) bool { return s.Pending[i].VpnAddr < s.Pending[j].VpnAddr })
 	sort.Slice(s.PendingIdx, func(i, j int) bool { return s.PendingIdx[i] < s.PendingIdx[j] })
 	return s
+}
+
+// VerifTunWrite writes one packet to the node's tun device (refused once the device is closed).
+func (c *Control) VerifTunWrite() (int, error) {
+	return c.f.inside.(*overlay.TestTun).Write([]byte{0x45, 0, 0, 20, 0, 0, 0, 0, 64, 17, 0, 0, 10, 0, 0, 1, 10, 0, 0, 2})
+}
+
+// VerifForceClose closes socket and device directly (used only to unwind after a leak was recorded).
+func (c *Control) VerifForceClose() {
+	c.cancel()
+	_ = c.f.Close()
 }
